@@ -75,7 +75,7 @@ def label(e):
         if isinstance(e.get(k), dict):
             kids.append(label(e[k]))
     tag = c
-    if c in ("Chol", "Tri", "CholInverse"):
+    if c in ("Chol", "Tri", "CholInverse", "CholDiag", "TriRepeat"):
         tag += "[upper]" if e["upper"] else "[lower]"
     if c == "KronAddedDiag":
         tag += "[%s]" % e["dk"]
@@ -89,6 +89,8 @@ def build(e):
         return O.DenseLinearOperator(e["t"].clone())
     if c == "Sum":
         return O.SumLinearOperator(*[build(x) for x in e["ops"]])
+    if c == "SumKron":
+        return O.SumKroneckerLinearOperator(*[build(x) for x in e["ops"]])
     if c == "ConstantMul":
         return O.ConstantMulLinearOperator(build(e["base"]), e["c"].clone())
     if c == "Toeplitz":
@@ -102,15 +104,20 @@ def build(e):
     if c == "ConstantDiag":
         return O.ConstantDiagLinearOperator(e["c"].clone(), diag_shape=e["n"])
     if c == "Identity":
-        return O.IdentityLinearOperator(e["n"], batch_shape=torch.Size(e.get("batch", ())), dtype=F64)
+        return O.IdentityLinearOperator(e["n"], batch_shape=torch.Size(e.get("batch", ())), dtype=e.get("dtype", F64))
     if c == "Chol":
         return O.CholLinearOperator(O.TriangularLinearOperator(e["t"].clone(), upper=e["upper"]), upper=e["upper"])
     if c == "CholInverse":
         return O.CholLinearOperator(O.TriangularLinearOperator(e["t"].clone(), upper=e["upper"]), upper=e["upper"]).inverse()
+    if c == "CholDiag":
+        return O.CholLinearOperator(O.DiagLinearOperator(e["d"].clone()), upper=e["upper"])
     if c == "Tri":
         return O.TriangularLinearOperator(e["t"].clone(), upper=e["upper"])
     if c == "TriPlusDiag":
         return O.TriangularLinearOperator(e["t"].clone(), upper=e["upper"]) + O.DiagLinearOperator(e["d"].clone())
+    if c == "TriRepeat":
+        return O.TriangularLinearOperator(
+            O.BatchRepeatLinearOperator(O.DenseLinearOperator(e["t"].clone()), batch_repeat=torch.Size(e["rep"])), upper=e["upper"])
     if c == "Kron":
         return O.KroneckerProductLinearOperator(*[build(x) for x in e["ops"]])
     if c == "KronAddedDiag":
@@ -145,7 +152,7 @@ def dense(e):
     c = e["cls"]
     if c == "Dense":
         return e["t"].clone()
-    if c == "Sum":
+    if c in ("Sum", "SumKron"):
         r = None
         for x in e["ops"]:
             r = dense(x) if r is None else r + dense(x)
@@ -173,10 +180,14 @@ def dense(e):
     if c == "CholInverse":
         t = e["t"]
         return torch.linalg.inv(t.mT @ t if e["upper"] else t @ t.mT)
+    if c == "CholDiag":
+        return torch.diag_embed(e["d"] * e["d"])
     if c == "Tri":
         return e["t"].clone()
     if c == "TriPlusDiag":
         return e["t"] + torch.diag_embed(e["d"])
+    if c == "TriRepeat":
+        return e["t"].expand(*e["rep"], *e["t"].shape[-2:]).clone()
     if c == "Kron":
         r = None
         for x in e["ops"]:
@@ -220,6 +231,17 @@ def size(e):
     return int(dense(e).shape[-1])
 
 
+def cast_spec(e, dtype):
+    """copy of a spec with every floating tensor cast to dtype"""
+    if torch.is_tensor(e):
+        return e.to(dtype) if e.is_floating_point() else e
+    if isinstance(e, dict):
+        return {k: cast_spec(v, dtype) for k, v in e.items()}
+    if isinstance(e, list):
+        return [cast_spec(v, dtype) for v in e]
+    return e
+
+
 # ----------------------------------------------------------------------------------------- literals
 def flit(x):
     return common.flit(x)
@@ -258,7 +280,7 @@ def spec_lit(e, bb, idx):
 
 def opd_lit(e, bb, idx):
     c = e["cls"]
-    if c in ("Dense", "Sum", "ConstantMul", "Toeplitz", "Root"):
+    if c in ("Dense", "Sum", "SumKron", "ConstantMul", "Toeplitz", "Root"):
         m = member(dense(e), bb, idx)
         return "(DGeneric %d%%N %s)" % (m.shape[-1], mat_lit(m))
     if c == "AddedDiag":
@@ -285,8 +307,14 @@ def opd_lit(e, bb, idx):
             return "(DChol %s %d%%N %s)" % (common.coq_bool(bool(op.upper)), t.shape[-1], mat_lit(t))
         m = member(dense(e), bb, idx)
         return "(DGeneric %d%%N %s)" % (m.shape[-1], mat_lit(m))
+    if c == "CholDiag":
+        t = member(torch.diag_embed(e["d"]), bb, idx)
+        return "(DChol %s %d%%N %s)" % (common.coq_bool(e["upper"]), t.shape[-1], mat_lit(t))
     if c == "Tri":
         t = member(e["t"], bb, idx)
+        return "(DTriDense %s %d%%N %s)" % (common.coq_bool(e["upper"]), t.shape[-1], mat_lit(t))
+    if c == "TriRepeat":
+        t = member(dense(e), bb, idx)
         return "(DTriDense %s %d%%N %s)" % (common.coq_bool(e["upper"]), t.shape[-1], mat_lit(t))
     if c == "TriPlusDiag":
         m = member(dense(e), bb, idx)
@@ -340,6 +368,9 @@ def gen(rng, cls, n, kappa, obatch=(), **kw):
         return {"cls": "Dense", "t": spd(rng, n, kappa, ob)}
     if cls == "Sum":
         return {"cls": "Sum", "ops": [{"cls": "Dense", "t": spd(rng, n, kappa, ob)}, {"cls": "Dense", "t": spd(rng, n, max(1.0, kappa / 10), ob)}]}
+    if cls == "SumKron":
+        sizes = kw["sizes"]
+        return {"cls": "SumKron", "ops": [gen(rng, "Kron", n, kappa, ob, sizes=sizes), gen(rng, "Kron", n, max(1.0, kappa / 10), ob, sizes=sizes)]}
     if cls == "ConstantMul":
         return {"cls": "ConstantMul", "base": {"cls": "Dense", "t": spd(rng, n, kappa, ob)}, "c": posvec(rng, 1, 0.5, 3.0, ob).reshape(ob)}
     if cls == "Toeplitz":
@@ -361,6 +392,10 @@ def gen(rng, cls, n, kappa, obatch=(), **kw):
     if cls in ("Chol", "CholInverse", "Tri"):
         up = kw["upper"]
         return {"cls": cls, "t": tri(rng, n, up, kappa, ob), "upper": up}
+    if cls == "TriRepeat":
+        return {"cls": cls, "t": tri(rng, n, kw["upper"], kappa, ()), "upper": kw["upper"], "rep": tuple(kw["rep"])}
+    if cls == "CholDiag":
+        return {"cls": cls, "d": posvec(rng, n, 1.0, max(math.sqrt(kappa), 1.0001), ob), "upper": kw["upper"]}
     if cls == "TriPlusDiag":
         up = kw["upper"]
         return {"cls": cls, "t": tri(rng, n, up, kappa, ob), "upper": up, "d": posvec(rng, n, 0.5, 2.0, ob)}
